@@ -370,14 +370,23 @@ func (c *wireSSConn) SendChunk(chunk pb.Chunk) error {
 	if len(chunk.Data) > 0 && n.roll(f.ChunkCorruptPm, 1000) {
 		// one byte of the payload changes before the frame checksum is computed, so only the
 		// snapshot stream validator / chunk tracker of the receiver can notice
-		d := append([]byte(nil), chunk.Data...)
-		n.mu.Lock()
-		i := n.rng.Intn(len(d))
-		bit := byte(1) << uint(n.rng.Intn(8))
-		n.mu.Unlock()
-		d[i] ^= bit
-		chunk.Data = d
-		atomic.AddInt64(&n.wire.ChunksCorrupted, 1)
+		// not inside the 1 KB snapshot header at the start of chunk 0: its checksum slot is zero
+		// by design for images of the stream / file writers, such a flip is not rejected but makes
+		// the load fail loudly (a process-fatal panic here); E4 classifies those flips
+		lo := 0
+		if chunk.ChunkId == 0 && !chunk.HasFileInfo {
+			lo = 1024
+		}
+		if len(chunk.Data) > lo {
+			d := append([]byte(nil), chunk.Data...)
+			n.mu.Lock()
+			i := lo + n.rng.Intn(len(d)-lo)
+			bit := byte(1) << uint(n.rng.Intn(8))
+			n.mu.Unlock()
+			d[i] ^= bit
+			chunk.Data = d
+			atomic.AddInt64(&n.wire.ChunksCorrupted, 1)
+		}
 	}
 	atomic.AddInt64(&n.wire.ChunksSent, 1)
 	if err := c.inner.SendChunk(chunk); err != nil {
